@@ -97,6 +97,16 @@ Parse(t) ==
              /\ cursorEOF' = (outcome[1] = "tree")
              /\ last' = <<"parse", t, outcome>>
              /\ UNCHANGED handed
+\* the call is made from deep inside the caller's own recursion and runs out of stack part-way: the tokens may have been
+\* cached, the cursor is left wherever it was, nothing is added to the parse cache
+DeepCall(t) ==
+  /\ Cardinality(DOMAIN lists) + 2 <= MaxLists
+  /\ ~(\E q \in parseCache : q[1] = t) /\ (Cached(t) \/ Tokenizable(t))
+  /\ LET e == TokenizeEffect(t, lists, tokCache) IN
+       /\ lists' = [e.lists EXCEPT ![e.rid] = <<>>] /\ tokCache' = e.tokCache
+  /\ cursorEOF' \in BOOLEAN
+  /\ last' = <<"deepcall", t, <<"raise", "RecursionError">>>>
+  /\ UNCHANGED <<parseCache, handed>>
 Clear == /\ tokCache' = (IF ClearDropsTokens THEN {} ELSE tokCache) /\ parseCache' = {} /\ last' = <<"clear", "none", <<"none">>>>
          /\ stale' = {}
          /\ UNCHANGED <<lists, cursorEOF, handed, mode>>
@@ -111,7 +121,7 @@ ClientPop(id)    == /\ id \in handed /\ Len(lists[id]) > 0 /\ lists' = [lists EX
 ClientAppend(id) == /\ id \in handed /\ Len(lists[id]) < 4 /\ lists' = [lists EXCEPT ![id] = Append(@, <<"junk", "none", 0>>)]
                     /\ UNCHANGED <<tokCache, parseCache, cursorEOF, handed, last, mode, stale>>
 Next == /\ steps < MaxSteps /\ steps' = steps + 1
-        /\ \/ \E t \in Texts : (Tokenize(t) \/ Parse(t)) /\ UNCHANGED <<mode, stale>>
+        /\ \/ \E t \in Texts : (Tokenize(t) \/ Parse(t) \/ DeepCall(t)) /\ UNCHANGED <<mode, stale>>
            \/ Clear
            \/ \E m \in Modes : Configure(m)
            \/ \E id \in handed : ClientPop(id) \/ ClientAppend(id)
